@@ -61,6 +61,9 @@ def run(ctx):
                 continue
             for pred, detail in fails[:3]:
                 ctx.violation('impl-violates', e['name'], pred, 'zoo entry', dict(cfg=str(e['cfg']), detail=detail))
+    # interactions: pre-existing input sensitivities, shared signals / option objects, interleaved instances, memory layouts
+    import zoo_interactions
+    zoo_interactions.run_part(ctx, pym, E, 'C04', quick)
 
 
 if __name__ == '__main__':
